@@ -37,7 +37,7 @@ def plan(tier):
     return {'nshards': 16 if tier == 'quick' else 48, 'timeout': 900 if tier == 'quick' else 3600}
 
 
-BIGS = 'S' * (T + 30)
+BIGS = 'S\u00e9' * (T // 2 + 15)       # file-backed text: more bytes than characters
 BIGB = b'B' * (T + 20)
 BIGP = ['P' * (T + 40), 2]
 
